@@ -176,7 +176,7 @@ def replay_idman(**cex):
 # ---------------------------------------------------------------- (2) object level, E1
 
 IDS = [-5, -1, 0, 1, 2, 7]
-OPS = ["ent", "brush", "brush_ent", "copy_ent", "copy_brush", "remove_ent", "remove_brush", "drop_refs", "copy_other_map", "visgroup", "group", "node", "set_nodeid", "bad_side"]
+OPS = ["ent", "brush", "brush_ent", "copy_ent", "copy_brush", "remove_ent", "remove_brush", "drop_refs", "copy_other_map", "visgroup", "group", "node", "set_nodeid", "bad_side", "copy_visgroup"]
 
 
 def _live_ids(v):
@@ -275,13 +275,20 @@ def _apply(v, other, held, op, idx):
     elif op == "visgroup":
         g = v.create_visgroup("g")
         held.append(g)
+    elif op == "copy_visgroup":
+        # a visgroup with a nested child, copied from the other map into this one (every level must get its id here)
+        tops = list(other.vis_tree)
+        if tops:
+            c = tops[0].copy(v, {}, des_id=want)
+            v.vis_tree.append(c)
+            held.append(c)
     elif op == "group":
         g = vmf.EntityGroup(v, id=want)
         v.groups[g.id] = g
         held.append(g)
 
 
-USES_ID = {"ent", "brush_ent", "copy_ent", "copy_brush", "group", "node", "set_nodeid"}
+USES_ID = {"ent", "brush_ent", "copy_ent", "copy_brush", "group", "node", "set_nodeid", "copy_visgroup"}
 
 
 def pick(lst, idx):
@@ -337,6 +344,8 @@ def h_history(o0: int, i0: int, o1: int, i1: int, o2: int, i2: int, nops: int, f
     other = vmf.VMF()
     for k in (1, 2, 3):
         other.create_ent("info_other")     # the other map hands out ids 2..4: colliding ids arrive by cross-map copy
+    otop = other.create_visgroup("outer")
+    otop.child_groups.append(vmf.VisGroup(other, "inner"))
     held = []
     _check_unique(v, "fresh map")
     for step, (name, i) in enumerate(ops):
